@@ -6,3 +6,24 @@ package humanize
 //@ func ByteSize
 //@   pure
 //@   trusted
+
+// unit scaling: the unit table is never empty and the rank stays inside it
+//@ func unitize
+//@   requires len(units) >= 1
+//@   loop 1 invariant 0 <= rank && rank <= len(units) - 1
+
+// digit grouping (hi): dec_digits(v) is the number of decimal digits of v (0 for v <= 0). With d
+// digits and c separators written so far, idx == 31 - d - c and ci == d - 3c, so
+// c == (31 - idx - ci) / 4; a 64-bit value has at most 20 digits, hence at most 6 separators
+// and the 32-byte buffer is never overrun.
+//@ smt
+//@ (declare-fun dec_digits (Int) Int)
+//@ (assert (forall ((v Int)) (! (and (>= (dec_digits v) 0) (=> (<= v 0) (= (dec_digits v) 0)) (=> (> v 0) (= (dec_digits v) (+ 1 (dec_digits (tquo v 10)))))) :pattern ((dec_digits v)))))
+//@ (assert (forall ((v Int)) (! (=> (<= v 18446744073709551615) (<= (dec_digits v) 20)) :pattern ((dec_digits v)))))
+//@ end
+//@ func humanizeInt
+//@   loop 1 invariant 0 <= ci && ci <= 3 && idx <= 31 && (31 - idx - ci) % 4 == 0 && (31 - idx) - fdiv(31 - idx - ci, 4) + dec_digits(v) <= 20
+
+// float grouping: the integer part ends at or before the end of the formatted number
+//@ func humanizeFloat
+//@   loop 1 invariant 0 <= i && 0 <= decIdx && decIdx <= len(s)
